@@ -16,7 +16,7 @@ def _all(f):
     return True
 
 
-prop("C03", ["take_range"],
+prop("C03", ["take_range", "sort_take"],
      not_covered="which sort is in effect (Flattener.sort/sort_undone, infer_sorts, alias_last_sorting): recursive folds over "
                  "PL/PQ trees with HashMap state; sort changes are NOT detected by this check")
 
@@ -35,7 +35,8 @@ def na(pid, reason):
 claim("C03",
       "PARTIAL (the take half). Proved for all inputs, unbounded number of takes: range_of_ranges composes any list of validated "
       "take ranges into exactly the position set that applying them one after another denotes (TR1), the OFFSET/LIMIT numbers "
-      "computed in translate_select_pipeline select exactly that set (TR2), empty selections are encoded as LIMIT 0 and never as a "
+      "computed in translate_select_pipeline select exactly that set (TR2), the ORDER BY emitted in front of a LIMIT is the sort embedded in the "
+      "take when there is one and the inherited sorting otherwise (sort_take ST1-3), empty selections are encoded as LIMIT 0 and never as a "
       "negative limit (TR3o), no arithmetic panic (checked composition), and validate_take_range accepts exactly positive integer "
       "bounds (TR4). NOT proved: which sort is in effect / sort persistence - the end-to-end sentence of C03 is not what is proved.",
       "Trusted: unpack_as_int_literal / bound_as_int by contract (enum_as_inner accessors), Option::transpose/zip and Ord::min by "
